@@ -429,6 +429,38 @@ func runC11R3(c *Ctx) {
 		}
 		c.Check("C11-R3", "delegate:"+key, target.Pos(), okName && okRecv && okArgs,
 			fmt.Sprintf("adapter method %s calls bbolt %s (expected %s) on own receiver=%v with arguments passed through unchanged=%v", key, got, want, okRecv, okArgs))
+		// byte-slice results (keys, values) are handed back exactly as bbolt returned them: in walletdb a nil value means
+		// "key absent" (Get) or "nested bucket" (cursors), and an empty non-nil one is a present, empty value; copying,
+		// re-slicing or appending loses that distinction
+		res := fn.Signature.Results()
+		for ri := 0; ri < res.Len(); ri++ {
+			sl, isSlice := res.At(ri).Type().Underlying().(*types.Slice)
+			if !isSlice {
+				continue
+			}
+			if b, ok := sl.Elem().Underlying().(*types.Basic); !ok || b.Kind() != types.Byte {
+				continue
+			}
+			okRes := true
+			for _, b := range fn.Blocks {
+				for _, ins := range b.Instrs {
+					r, ok := ins.(*ssa.Return)
+					if !ok || ri >= len(r.Results) {
+						continue
+					}
+					v := r.Results[ri]
+					direct := v == ssa.Value(target)
+					if ex, ok := v.(*ssa.Extract); ok && ex.Tuple == ssa.Value(target) && ex.Index == ri {
+						direct = true
+					}
+					if !direct {
+						okRes = false
+					}
+				}
+			}
+			c.Check("C11-R3", fmt.Sprintf("delegate-result-unchanged:%s#%d", key, ri), target.Pos(), okRes,
+				"adapter method "+key+" does not return bbolt's byte slice as is (copied / appended / re-sliced): an empty value becomes nil and reads as 'key absent' although the transaction wrote it")
+		}
 	}
 	c.Floor("C11-R3", "adapter delegates", n, 22)
 }
